@@ -240,7 +240,7 @@ StepAdd ==
                       THEN Conf(exp, log, sends, "C07", "C01", "C01", "C01", "C02")
                            \cup ReplyCodeTags(exp.reply.code, Ev.reply.code)
                            \cup Lift(C06_Request(st, E, log) \cup C07_Add(st, E, log) \cup C07_Copies(log))
-                           \cup (IF st.reachable THEN Lift(C01_Add(st, E, log, g) \cup C08_Add(st, E, log)) ELSE {})
+                           \cup (IF st.reachable THEN Lift(C01_Add(st, E, log, g) \cup C08_Add(st, E, log, g)) ELSE {})
                            \cup Lift(C02_Sends(st, E, log, g) \cup C02_Status(st, E, log, g2))
                       ELSE {})
           /\ alive' = (alive /\ Ev.abort = "")
